@@ -242,6 +242,9 @@ func genLedgerWith(b ledgerBias) func(r *prng, seed uint64, tier string) *Plan {
 				p.Steps = append(p.Steps, Step{Op: "crash", Node: v, DelayMS: r.Intn(100)})
 				p.Steps = append(p.Steps, Step{Op: "restart", Node: v, Node2: r.Intn(cfg.Nodes), DelayMS: r.Intn(3000)})
 				continue
+			case r.Chance(b.forbiddenP * 0.2):
+				p.Steps = append(p.Steps, Step{Op: "genesis", Node: node, Kind: []string{"again", "empty"}[r.Intn(2)], To: r.Intn(cfg.Wallets), DelayMS: r.Intn(100)})
+				continue
 			case r.Chance(b.forbiddenP):
 				kind := []string{"self-sealed", "genesis-issuer", "empty", "orphan", "self-sealed-alias", "genesis-issuer-alias"}[r.Intn(6)]
 				st := Step{Op: "inject", Node: node, Kind: kind, From: r.Intn(cfg.Wallets), To: r.Intn(cfg.Wallets), Cur: uint64(1 + r.Intn(5)), DelayMS: r.Intn(100)}
